@@ -9,96 +9,8 @@ From RP2V Require Import Proofs.FullReportLayout Proofs.FullReportProofs Proofs.
   Proofs.FullReportWitness Proofs.JpProofs.
 Open Scope Z_scope.
 
-(** * A. the full report is produced *)
-Definition cell_fits (rows cols : Z) (rc : Z * Z) : bool :=
-  (0 <=? fst rc) && (fst rc <? rows) && (0 <=? snd rc) && (snd rc <? cols).
-Definition positions (ws : list cellw) : list (Z * Z) := map (fun w => (cw_row w, cw_col w)) ws.
-
-Lemma in_cap_positions rows cols ws : forallb (in_cap rows cols) ws = forallb (cell_fits rows cols) (positions ws).
-Proof. unfold positions. induction ws as [|w ws IH]; cbn [map forallb]; [reflexivity|]. rewrite IH. reflexivity. Qed.
-
-Definition blank_input : rinput :=
-  {| rp_country := US; rp_period := 0; rp_from := 0; rp_to := 0; rp_allow := false; rp_exchanges := []; rp_holders := [];
-     rp_sched := []; rp_assets := [] |}.
-
-(** the template of the generation language is large enough for what is written whatever the input: the Legend page with its
-    three variable cells, the Summary header, the Summary columns *)
-Definition fenv_fits (env : fenv) : bool :=
-  forallb (cell_fits (fe_legend_rows env) (fe_legend_cols env)) (positions (FullReport.legend_writes blank_input []))
-  && forallb (cell_fits (fe_summary_rows env) (fe_summary_cols env)) (positions (fst (fill_header 0 gen_full_hdr_sum)))
-  && (gen_header_height <=? fe_summary_rows env)
-  && forallb (fun x : fcol => (0 <=? col_of x) && (col_of x <? fe_summary_cols env)) gen_full_cols_sum.
-
-Lemma legend_positions inp m : positions (FullReport.legend_writes inp m) = positions (FullReport.legend_writes blank_input []).
-Proof. unfold FullReport.legend_writes, positions. rewrite !map_app. reflexivity. Qed.
-
-Section FullTotal.
-Variables (env : fenv) (inp : rinput).
-Hypothesis Hfits : fenv_fits env = true.
-
-Definition sum_inv (st : gstate) : Prop := 0 <= gs_srow st <= gs_scap st.
-
-Lemma summary_writes_fit x ym r scap : 0 <= r -> r + Z.of_nat (length (cd_yearly (ac_c x))) <= scap ->
-  forallb (in_cap scap (fe_summary_cols env)) (summary_writes env x ym r) = true.
-Proof.
-  intros Hr Hs. apply forallb_forall. intros w Hw. unfold summary_writes in Hw.
-  destruct (table_rows_only _ _ _ _ _ _ Hw) as (j & t & c & lk & f & Hn & Hin & ->).
-  assert (Hj : (j < length (cd_yearly (ac_c x)))%nat) by (apply nth_error_Some; congruence).
-  unfold fenv_fits in Hfits. apply andb_true_iff in Hfits as [_ Hc]. rewrite forallb_forall in Hc.
-  specialize (Hc _ Hin). unfold col_of in Hc. cbn [fst] in Hc. apply andb_true_iff in Hc as [C1 C2].
-  unfold in_cap. cbn [cw cw_row cw_col]. rewrite C1, C2.
-  replace (0 <=? r + Z.of_nat j) with true by (symmetry; apply Z.leb_le; lia).
-  replace (r + Z.of_nat j <? scap) with true by (symmetry; apply Z.ltb_lt; lia). reflexivity.
-Qed.
-
-Lemma gen_asset_total x st period from_day to_day allow exs hos fs :
-  compute period from_day to_day allow exs hos (ac_txs x) fs = Ok (ac_c x) ->
-  Z.of_nat (length (holder_totals inp (cd_balances (ac_c x)))) <= max_holders ->
-  sum_inv st -> exists st', FullReport.gen_asset code_flags env inp x st = ROk st' /\ sum_inv st'.
-Proof.
-  intros Hc Hh [I1 I2]. unfold FullReport.gen_asset.
-  rewrite (inout_capacity env inp x _ _ _ _ _ _ _ Hc). cbn [negb].
-  rewrite (tax_capacity env inp x _ _ _ _ _ _ _ _ Hc Hh). cbn [negb].
-  rewrite (summary_no_key_error code_flags x _ eq_refl).
-  rewrite summary_writes_fit by lia. cbn [negb].
-  eexists. split; [reflexivity|]. unfold sum_inv. cbn [gs_srow gs_scap]. lia.
-Qed.
-
-Lemma gen_assets_total : forall l aidx ex st,
-  (forall a c, In (a, c) l -> computed_of inp a = Ok c /\ Z.of_nat (length (holder_totals inp (cd_balances c))) <= max_holders) ->
-  sum_inv st -> exists st', FullReport.gen_assets code_flags env inp aidx l ex st = ROk st'.
-Proof.
-  induction l as [|[a c] l IH]; intros aidx ex st H I; cbn [FullReport.gen_assets]; [eexists; reflexivity|].
-  destruct (H a c (or_introl eq_refl)) as [Hc Hh].
-  set (x := {| ac_idx := aidx; ac_name := ra_name a; ac_txs := ra_txs a; ac_c := c; ac_extra := hd [] ex |}).
-  destruct (gen_asset_total x st _ _ _ _ _ _ _ Hc Hh I) as (st1 & E1 & I1). rewrite E1.
-  apply IH; [|exact I1]. intros a' c' Hin. apply H. right. exact Hin.
-Qed.
-
-Theorem full_report_total acs :
-  computed_all inp (rp_assets inp) = Ok acs ->
-  (forall ac, In ac acs -> Z.of_nat (length (holder_totals inp (cd_balances (snd ac)))) <= max_holders) ->
-  exists sheets, full_report code_flags env inp = ROk sheets.
-Proof.
-  intros HC HH. unfold full_report. rewrite HC.
-  destruct (legend_methods_ok code_flags (rp_sched inp) eq_refl) as (m & Hm & _). rewrite Hm.
-  pose proof Hfits as F. unfold fenv_fits in F.
-  apply andb_true_iff in F as [F F4]. apply andb_true_iff in F as [F F3]. apply andb_true_iff in F as [F1 F2].
-  rewrite in_cap_positions, legend_positions, F1. cbn [negb].
-  destruct (fill_header 0 gen_full_hdr_sum) as [hw srow] eqn:EH.
-  assert (Hs : srow = gen_header_height) by (pose proof (fill_header_snd 0 gen_full_hdr_sum) as S; rewrite EH in S; exact S).
-  cbn [fst] in F2. rewrite in_cap_positions, F2. cbn [negb].
-  destruct (computed_all_fst inp _ _ HC) as [_ HA].
-  destruct (gen_assets_total acs 0 (fe_extra env)
-              {| gs_lm := []; gs_srow := srow; gs_scap := fe_summary_rows env; gs_sheets := []; gs_sum := hw |}) as (st & E).
-  - intros a c Hin. split; [apply HA; exact Hin|]. exact (HH (a, c) Hin).
-  - unfold sum_inv. cbn [gs_srow gs_scap]. subst srow. apply Z.leb_le in F3. change gen_header_height with 3 in *. lia.
-  - rewrite E. eexists. reflexivity.
-Qed.
-End FullTotal.
-
-Example wenv_fits : fenv_fits wenv = true.
-Proof. vm_compute. reflexivity. Qed.
+(** * A. the full report is produced: Proofs/FullReportTotal.v ([fenv_fits], [full_report_total], ...) *)
+From RP2V Require Export Proofs.FullReportTotal.
 
 (** * B. the open-positions report is produced (either shape of the code between the two passes) *)
 From RP2V Require Import Proofs.OpenPosProofs Proofs.OpenPosArith.
